@@ -108,7 +108,7 @@ func TestC09Child(t *testing.T) {
 			}
 			done <- "ok"
 		}
-		for round := 0; round < 6; round++ {
+		for round := 0; round < 10; round++ {
 			b, _ := json.Marshal(c09Lookup{I: round + 1, Phase: "crossing-lookups-during-joins", Node: X, Key: kx, NT: true})
 			say("LOOKUP %s", b)
 			go worker(X, kx, 400)
@@ -434,6 +434,8 @@ var c09Regressions = []c09Case{
 	// fixed scenario: two non-adjacent nodes forward lookups to each other while joins update
 	// the predecessor pointers of both (lookups must not depend on locks held across a hop)
 	{IDs: []uint64{1 << 44, 5 << 44, 9 << 44, 13 << 44}, Vias: []int{0, 0, 0, 0}, Joiner: 3 << 44, Via: 0, Hook: "crossing-lookups-during-joins", Nth: 1, Keys: []uint64{1}, KeyRel: []int{0}},
+	// (a second layout and delay seed: the window depends on how the machine schedules the hops)
+	{IDs: []uint64{2 << 44, 6 << 44, 10 << 44, 14 << 44}, Vias: []int{0, 1, 0, 2}, Joiner: 4 << 44, Via: 0, Hook: "crossing-lookups-during-joins", Nth: 1, Keys: []uint64{1}, KeyRel: []int{0}},
 	// fixed scenario: the joiner's request to join has not been answered yet (state Joining, no
 	// neighbours); lookups issued to it must come back instead of waiting for the join
 	{IDs: []uint64{100, 200, 300}, Vias: []int{0, 0, 0}, Joiner: 250, Via: 0, Hook: "join-request-outstanding", Nth: 1, Keys: []uint64{50, 251}, KeyRel: []int{0, 1, -1}},
